@@ -34,7 +34,8 @@ def setup(ctx):
         "(tokens on/off, type list, delete on/off) on trees with existing content. Faults: for every stored upload, "
         "RLIMIT_FSIZE = 0,1,half,size-1 (real partial write) and an injected ENOSPC/EIO/EACCES at every index of the "
         "open/os.open/write/replace/rename/unlink/mkdir/fsync call sequence (exhaustive over call indices). Through "
-        "the protocol: content sliced from reads. distinct = (path class, precondition, fault kind+site, status, diff shape)."
+        "the protocol: content sliced from reads. Sequences: one handler object and one tree serve five requests in a "
+        "row (refused after accepted and vice versa), each judged on its own before/after snapshot. distinct = (path class, precondition, fault kind+site, status, diff shape)."
     )
     ctx.assumptions = [
         "creation of missing parent directories inside the upload directory is tolerated (counted)",
@@ -46,6 +47,7 @@ def setup(ctx):
     ctx.require("monitor", "faults_injected", 129)
     ctx.require("monitor", "faults_fired", 93)
     ctx.require("monitor", "protocol_uploads", 24)
+    ctx.require("monitor", "sequence_requests", 50)
 
 
 LIMIT = 64
@@ -345,6 +347,64 @@ def run_protocol(ctx, rng):
             close_loop(loop)
             shutil.rmtree(base, ignore_errors=True)
 
+def run_sequence(ctx, rng):
+    """One handler object and one tree serve several requests in a row (as in a running server): every
+    request is judged on the snapshot taken immediately before and after it, whatever preceded it."""
+    from nauyaca.server.handler import FileUploadHandler
+
+    cfgs = [
+        {"tokens": {"good"}, "max_size": LIMIT, "types": ["text/plain"], "delete": True},
+        {"tokens": {"good", "other"}, "max_size": LIMIT, "types": None, "delete": False},
+        {"tokens": None, "max_size": LIMIT, "types": None, "delete": True},
+    ]
+    for trial in range(ctx.pick(24, 400) // ctx.nshards + 1):
+        cfg = cfgs[trial % len(cfgs)]
+        base = tempfile.mkdtemp(prefix="vf-c14s-")
+        try:
+            up = build_tree(rng, base)
+            h = FileUploadHandler(up, max_size=cfg["max_size"], allowed_types=cfg["types"],
+                                  auth_tokens=set(cfg["tokens"]) if cfg["tokens"] else None, enable_delete=cfg["delete"])
+            prev_ok = None
+            for step in range(5):
+                path, pclass = rng.choice(PATHS)
+                if path == "ABS":
+                    path = "/" + os.path.join(base, "outside", "victim.txt")
+                elif path == "ABSNEW":
+                    path = "/" + os.path.join(base, "outside", "abs-created.txt")
+                size = rng.choice([0, 1, 9, LIMIT, LIMIT + 1])
+                # an accepted request is often followed by a refused one and vice versa
+                if prev_ok is True and rng.random() < 0.6:
+                    token, tclass = rng.choice(TOKENS[2:5])
+                elif prev_ok is False and rng.random() < 0.6:
+                    token, tclass = TOKENS[1]
+                else:
+                    token, tclass = rng.choice(TOKENS)
+                mime = rng.choice([None, "text/plain", "image/png"])
+                content = bytes((11 * i + step) & 0xFF for i in range(size))
+                req, line = make_request(path, size, mime, token, content)
+                if req is None:
+                    ctx.undecided("request-line-refused-before-handler")
+                    continue
+                before = fstree.snapshot([base])
+                audit = AuditMonitor.get()
+                audit.start()
+                try:
+                    status = asyncio.run(h.handle_upload(req)).status
+                except Exception as e:  # noqa: BLE001
+                    status = 40
+                    ctx.count("outcome", f"handler-raised:{type(e).__name__}")
+                ev = audit.stop()
+                after = fstree.snapshot([base])
+                ctx.count("monitor", "sequence_requests")
+                check_outcome(ctx, base, up, before, after, ev, req, status,
+                              {k: (sorted(v) if isinstance(v, set) else v) for k, v in cfg.items()}, pclass, tclass, None, via=f"L0-seq-step{min(step, 1)}")
+                now_ok = 20 <= status <= 29
+                ctx.case(("seq", pclass, tclass, prev_ok, now_ok, size if size in (0, 1) else "n"), True,
+                         sample={"via": "sequence", "line": line[:120], "step": step, "previous_accepted": prev_ok, "status": status})
+                prev_ok = now_ok
+        finally:
+            shutil.rmtree(base, ignore_errors=True)
+
 
 def run(ctx):
     rng = ctx.rng("c14")
@@ -388,3 +448,4 @@ def run(ctx):
     if ctx.shard == 0 or ctx.nshards == 1:
         ctx.exhaustive = None
     run_protocol(ctx, rng)
+    run_sequence(ctx, rng)
